@@ -1,5 +1,6 @@
 """C13 -- Every unit string the library prints is accepted back with the same meaning."""
 import itertools
+import re
 import json
 import os
 import time
@@ -91,6 +92,29 @@ def exhaustive_maps(max_syms):
             yield [(syms[i], U.py_exponent(e)) for i, e in enumerate(exps)]
 
 
+COMBOS = ["combo:1.4/0.4", "combo:0.9/1.9", "combo:0.2^5", "combo:2.3/0.3", "combo:2.7/1.7", "combo:0.1*0.2", "combo:0.7*0.3",
+          "combo:1.1*2.2", "combo:0.6/0.1", "combo:0.3^10", "combo:0.4^5", "combo:1.5*1.5", "combo:0.1^3"]
+NEAR = [1.4 - 0.4, 3 * 0.2 * 5, 0.9 - 1.9, 2.3 - 0.3, 2.7 - 1.7, 1.0000000000000002, -2.0000000000000004, 0.1 + 0.2, 1 - 1 / 3,
+        0.1 * 3, 0.7 + 0.1 - 0.3, 0.30000000000000004 - 0.8]
+
+
+def gen_combo(rng):
+    a, b = rng.randrange(1, 30), rng.randrange(1, 30)
+    op = rng.choice("/*^/")
+    if op == "^":
+        return "combo:{}^{}".format(a / 10, rng.choice([2, 3, 5, 10]))
+    if op == "/" and a == b:
+        b += 1
+    return "combo:{}{}{}".format(a / 10, op, b / 10)
+
+
+def near_map(rng):
+    """exponents as left behind by float arithmetic: one ulp off a whole number or a small fraction"""
+    n = rng.choice([1, 2, 2, 3])
+    syms = rng.sample(SYMS, n)
+    return [(s, rng.choice(NEAR) if rng.random() < 0.7 else py_variants(rng.choice(U.EXPONENTS), rng)) for s in syms]
+
+
 def random_map(rng):
     n = rng.choice([1, 2, 2, 3, 3, 4, 4])
     syms = rng.sample(SYMS, n)
@@ -103,7 +127,7 @@ def odd_map(rng):
     n = rng.choice([1, 2, 3])
     syms = rng.sample(SYMS, n)
     vals = [0, 0.0, 0.1, 1 / 3, 2 / 3, 0.25, 1 / 7, 0.142857, 3.14159, -0.3333333333333333, 1e-3, 5, -7, 2.5, 0.30000000000000004,
-            1 / 11, 5 / 11, 12, -0.09]
+            1 / 11, 5 / 11, 12, -0.09, 1.4 - 0.4, 3 * 0.2 * 5, 0.9 - 1.9, 2.3 - 0.3, 1.0000000000000002, 0.1 + 0.2, 1 - 1 / 3]
     return [(s, rng.choice(vals)) for s in syms]
 
 
@@ -379,6 +403,25 @@ def judge_api(pairs, how):
         x = q.Measurement(4.0, 0.2, unit=us)
     except Exception as e:  # noqa
         return "creating a Measurement with unit {!r} raised {}".format(us, type(e).__name__)
+    if how.startswith("combo:"):
+        # products / quotients / powers of constant fractional powers: the float exponents may be one ulp off the
+        # fraction they stand for (1.4 - 0.4 = 0.9999999999999999, 3 * 0.2 * 5 = 3.0000000000000004)
+        if any(v.denominator != 1 or abs(v) > 3 for v in want.values()):
+            return None
+        m = re.fullmatch(r"combo:([0-9.]+)([/*^])([0-9.]+)", how)
+        sa, op, sb = m.group(1), m.group(2), m.group(3)
+        a, fa, fb = float(sa), Fraction(sa), Fraction(sb)
+        try:
+            if op == "/":
+                y, fr = x ** a / x ** float(sb), fa - fb
+            elif op == "*":
+                y, fr = x ** a * x ** float(sb), fa + fb
+            else:
+                y, fr = (x ** a) ** int(sb), fa * fb
+        except Exception:  # noqa
+            return None
+        return check_quantity(y, {k: v * fr for k, v in want.items()}, "x**{} {} {}, x in {!r},".format(
+            sa, {"/": "/ x**", "*": "* x**", "^": "to the power"}[op], sb, us))
     if how == "powtypes":
         if any(v.denominator != 1 or abs(v) > 4 for v in want.values()):
             return None
@@ -596,7 +639,11 @@ def search(ctx, suspects, budget):
         k += 1
         m = random_map(rng)
         examine("map", m)
-        how = rng.choice(["sqrt", "pow", "quotient", "same", "same", "paths", "paths", "powtypes"])
+        how = rng.choice(["sqrt", "pow", "quotient", "same", "same", "paths", "paths", "powtypes", "combo", "combo"])
+        if how == "combo":
+            how = COMBOS[k % len(COMBOS)] if k <= 4 * len(COMBOS) else gen_combo(rng)
+        if k % 7 == 0:
+            examine("map", near_map(rng))
         ints = [(s, int(v) if float(v).is_integer() else v) for s, v in m]
         examine("api", ints, how)
         if k % 5 == 0 and journal:
